@@ -785,7 +785,8 @@ def a_position_is_not_tested_by_its_truth(ctx):
             continue
         for _ in range(3):      # locals a position is handed on to (`end = pos` on one branch, `end = None` on the other)
             positions |= {x.targets[0].id for x in body_walk(fi.node) if isinstance(x, ast.Assign) and len(x.targets) == 1 and isinstance(x.targets[0], ast.Name)
-                          and isinstance(x.value, ast.Name) and x.value.id in positions}
+                          and ((isinstance(x.value, ast.Name) and x.value.id in positions) or
+                               (isinstance(x.value, ast.IfExp) and any(isinstance(y, ast.Name) and y.id in positions for y in (x.value.body, x.value.orelse))))}
         ctx.analysed(fi)
         cfg = CFG(fi.node, m, fi.module)
         for t in cfg.nodes:
